@@ -1205,6 +1205,17 @@ def add_and_update_gp(
         gp.X = np.concatenate((gp.X, np.atleast_2d(x_new)))
         gp.y = np.concatenate((gp.y, np.atleast_2d(y_new)))
         if options["specify_target_noise"] and sd_new is not None:
+            # the point may be a repeat of a logged point that is not in the
+            # training set: its logged (merged) SD is the one that goes with y_new
+            idx_log = np.flatnonzero(
+                np.all(
+                    function_logger.X[: function_logger.Xn + 1]
+                    == np.atleast_2d(x_new),
+                    axis=1,
+                )
+            )
+            if idx_log.size > 0:
+                sd_new = function_logger.S[idx_log[0]]
             gp.s2 = np.concatenate((gp.s2, np.atleast_2d(sd_new) ** 2))
 
     gp.update(compute_posterior=True)
